@@ -15,18 +15,18 @@ def pts(points):
 
 
 def param(s0=0, a=1, b=0, qf=0, g=0, points=((0, 0), (2, 4), (4, 2), (8, 10)), dn=2, dinit=None, T=2, sinit=1, tinit=2,
-          h=3, t0=1, pv=2, pfirst=1, pint=2):
+          h=3, t0=1, pv=2, pfirst=1, pint=2, xti=0, pinit=0, hz=2):
     return ("[s0 |-> %s, a |-> %s, b |-> %s, q |-> %s, g |-> %s, pts |-> %s, dn |-> %d, dinit |-> %s, T |-> %s, sinit |-> %s, "
-            "tinit |-> %s, h |-> %s, t0 |-> %s, pv |-> %s, pfirst |-> %d, pint |-> %d]") % (
+            "tinit |-> %s, h |-> %s, t0 |-> %s, pv |-> %s, pfirst |-> %d, pint |-> %d, xti |-> %s, pinit |-> %s, hz |-> %s]") % (
         q(s0), q(a), q(b), q(qf), q(g), pts(points), dn, "<<0, 0>>" if dinit is None else q(dinit), q(T), q(sinit), q(tinit),
-        q(h), q(t0), q(pv), pfirst, pint)
+        q(h), q(t0), q(pv), pfirst, pint, q(xti), q(pinit), q(hz))
 
 
 PARAMS = [
     param(),                                                                   # rising input from 0
-    param(s0=10, a=-1, b=-3, qf=0, g=1, dinit=5, sinit=4, tinit=5),             # falling input crossing zero (clamp + falling average)
-    param(s0=4, a=2, b=3, qf=Fraction(1, 2), g=0, dn=1, T=1, sinit=0, tinit=1),    # first-order outflow
-    param(s0=8, a=0, b=-2, qf=Fraction(1, 4), g=Fraction(1, 2), dn=3, dinit=7, T=4, h=-2, t0=2, pint=0),
+    param(s0=10, a=-1, b=-3, qf=0, g=1, dinit=5, sinit=4, tinit=5, xti=Fraction(1, 2), pinit=3),             # falling input crossing zero (clamp + falling average)
+    param(s0=4, a=2, b=3, qf=Fraction(1, 2), g=0, dn=1, T=1, sinit=0, tinit=1, xti=-Fraction(1, 4), pinit=-2, hz=1, t0=0, dinit=0),    # first-order outflow
+    param(s0=8, a=0, b=-2, qf=Fraction(1, 4), g=Fraction(1, 2), dn=3, dinit=7, T=4, h=-2, t0=2, pint=0, xti=1, hz=3),
     param(s0=0, a=-2, b=-5, qf=0, g=3, points=((1, 5), (2, 1), (3, 1), (5, 9)), dn=0, T=Fraction(1, 2), sinit=6, tinit=4, pfirst=0, pint=1),
     param(s0=1, a=Fraction(1, 2), b=1, qf=1, g=0, points=((-2, -1), (0, 0), (1, 3)), dn=2, T=2, sinit=-1, tinit=3, t0=Fraction(3, 2), pfirst=2, pint=3),
 ]
